@@ -185,6 +185,7 @@ type half struct {
 	cut      bool
 	accepted int64
 	filter   Filter
+	limit    int  // > 0: a Write blocks while this many bytes are queued (a peer that does not read)
 	sent     *Log // bytes as written by the endpoint
 	wire     *Log // bytes as delivered to the link after the filter
 	dir      int
@@ -243,6 +244,14 @@ func (p *Pipe) CutAfter(dir int, n int64) {
 		p.S.out.cutAfter = n
 	}
 }
+
+//go:norace
+func (c *Conn) writable() bool {
+	return c.closed || c.out.rclosed || c.out.cut || c.out.q.n < c.out.limit
+}
+
+// SetLimit bounds the bytes queued towards the peer (0 = unbounded).
+func (c *Conn) SetLimit(n int) { c.out.limit = n }
 
 //go:norace
 func (c *Conn) readable() bool {
@@ -305,6 +314,15 @@ func (c *Conn) Write(b []byte) (int, error) {
 		return 0, ErrTimeout
 	}
 	h := c.out
+	if h.limit > 0 && h.q.n >= h.limit {
+		// the transport's buffers are full: block like a TCP socket whose peer does not read
+		if !vs.Block(c.writable, c.wdl) {
+			return 0, ErrTimeout
+		}
+		if c.closed {
+			return 0, net.ErrClosed
+		}
+	}
 	h.sent.add(h.dir, b) // what the endpoint handed to the transport, even if the peer is gone
 	if h.rclosed || h.cut {
 		return 0, ErrReset
